@@ -171,9 +171,12 @@ def run_sandbox_points(case):
     for pt in case['points']:
         for expr, chosen in concretise(pt['show'], case['classes'], sentinel):
             n += 1
-            ctxkeys = {'x': 'ab'}
+            # the value bound in the AST: mostly ASCII, every fifth time a text with a character outside Latin-1 (the values of safe
+            # expressions must not depend on what the bound text is made of)
+            bound = 'ab' if n % 5 else 'a\u4e16'
+            ctxkeys = {'x': bound}
             if 'shadow' in chosen:
-                ctxkeys[chosen['shadow']] = 'ab'
+                ctxkeys[chosen['shadow']] = bound
             context = safe_builtins() | ctxkeys
             _state['events'].clear(); _state['calls'].clear()
             if os.path.exists(sentinel):
